@@ -25,6 +25,7 @@ ImplExpected(kind, c) ==
     [] kind = "msg" -> MsgVerdict(c)
     [] kind = "lis" -> ListenerVerdict(c)
     [] kind = "dia" -> DialerVerdict(c)
+    [] kind = "kadpid" -> KadPeerIdVerdict(c)
 
 \* a class of one of the decision tables
 TCls == /\ Rec[l].e = "cls"
